@@ -35,6 +35,7 @@ fn main() {
             let nshards: u64 = a.rest.get(2).map(|s| s.parse().unwrap()).unwrap_or(1);
             // vharness chunk gen <shard> <nshards> <paths.ndjson> --out FILE : behaviours printed by TLC from Gen_Chunk.tla
             let info = if kind == "gen" { chunk::generate_from_paths(&a.rest[3], a.seed, shard, nshards, &a.out) }
+                       else if kind == "genrx" { chunk::generate_rx_from_paths(&a.rest[3], a.seed, shard, nshards, &a.out) }
                        else { chunk::generate(&kind, &a.tier, a.seed, shard, nshards, &a.out) };
             println!("{}", info);
         }
